@@ -14,7 +14,19 @@ EVENTS = ["CER", "CER-other-host", "CER-odd-flags", "CEA", "CEA-other-host", "DW
           "DPR", "DPR-bad-cause", "DPA", "APP-req", "APP-req-misaddressed", "APP-ans", "local-stop", "local-stop+pending-inbound",
           "peer-disconnect", "idle", "CEA-duplicate", "DWA-echo", "DWA-echo-twice"]
 # the same valid base messages carrying the optional Origin-State-Id AVP their grammar allows: same cells as the plain ones
-EVENTS_OPT = ["CER+osi", "CEA+osi", "DWR+osi", "DWA+osi"]
+EVENTS_OPT = ["CER+osi", "CEA+osi", "DWR+osi", "DWA+osi",
+              # ... a second Host-IP-Address (1*{Host-IP-Address}: a multi-homed peer), and the other optional AVPs of a CER/CEA
+              "CER+2ip", "CEA+2ip", "CER+opt", "CEA+opt"]
+
+
+def _extra(ev):
+    kind = ev.split("+", 1)[1]
+    if kind == "osi":
+        return [N.origin_state_id()]
+    if kind == "2ip":
+        return [N.avp(257, b"\x00\x01\x7f\x00\x00\x03"), N.avp(257, b"\x00\x02" + bytes(15) + b"\x01")]
+    return [N.avp(265, N.u32(10415)), N.avp(265, N.u32(13019)), N.avp(267, N.u32(7), flags=0), N.avp(299, N.u32(0)),
+            N.avp(260, R.encode_avp(N.avp(266, N.u32(10415))) + R.encode_avp(N.avp(258, N.u32(16777251)))), N.avp(259, N.u32(3))]
 
 
 def slow_ticker(seconds=0.005):
@@ -56,14 +68,8 @@ def event_bytes(ev, ids):
         m = N.dwa(hbh=h, e2e=e)
     elif ev == "DWA-other-host":
         m = N.dwa(host=OTHER[0], realm=OTHER[1], hbh=h, e2e=e)
-    elif ev == "CER+osi":
-        m = N.cer(hbh=h, e2e=e, extra=[N.origin_state_id()])
-    elif ev == "CEA+osi":
-        m = N.cea(hbh=h, e2e=e, extra=[N.origin_state_id()])
-    elif ev == "DWR+osi":
-        m = N.dwr(hbh=h, e2e=e, extra=[N.origin_state_id()])
-    elif ev == "DWA+osi":
-        m = N.dwa(hbh=h, e2e=e, extra=[N.origin_state_id()])
+    elif "+" in ev and ev.split("+")[0] in ("CER", "CEA", "DWR", "DWA"):
+        m = {"CER": N.cer, "CEA": N.cea, "DWR": N.dwr, "DWA": N.dwa}[ev.split("+")[0]](hbh=h, e2e=e, extra=_extra(ev))
     elif ev == "DPR":
         m = N.dpr(hbh=h, e2e=e)
     elif ev == "DPR-bad-cause":
@@ -90,8 +96,8 @@ def model_step(state, ev, role):
     """-> dict(next=..., emit=[names], hard=bool, not_open=bool)"""
     def r(nxt, emit=(), hard=True, not_open=False):
         return {"next": nxt, "emit": list(emit), "hard": hard, "not_open": not_open}
-    if ev.endswith("+osi"):
-        ev = ev[:-4]                              # an optional AVP of the grammar does not change the cell
+    if ev in EVENTS_OPT:
+        ev = ev.split("+")[0]                     # what the grammar allows besides the mandatory AVPs does not change the cell
     if state in (CLOSED, DEAD):
         return r(state, hard=False)
     if state == S_WAIT_CER:
@@ -217,8 +223,8 @@ class Run:
         ndeliv = len(self.delivered)
         sc.read_emitted()
         data, (h, e) = event_bytes(ev, self.ids)
-        if ev in ("CEA", "CEA+osi") and self.model == C_WAIT_CEA:
-            data = R.encode(N.cea(hbh=self.cer_ids[0], e2e=self.cer_ids[1], extra=[N.origin_state_id()] if ev.endswith("+osi") else ()))
+        if ev.split("+")[0] == "CEA" and (ev == "CEA" or ev in EVENTS_OPT) and self.model == C_WAIT_CEA:
+            data = R.encode(N.cea(hbh=self.cer_ids[0], e2e=self.cer_ids[1], extra=_extra(ev) if "+" in ev else ()))
         # answers that echo the identifiers of requests the node itself has sent (a duplicated or retransmitted answer)
         if ev == "CEA-duplicate":
             ids_ = getattr(self, "cer_ids", None) or (h, e)
